@@ -11,6 +11,16 @@ CHECKS = {
             "Every configuration (N<=6 quick / <=9 thorough, every B, drop_last, drop_last_batch_size, every budget value of the three kinds, 59..507 interleaved config sets) is run on the real InterleavedSampler one next() at a time against a declarative reference model; set_epoch announcements, indices, batch-boundary flags, stopping point and termination (explicit horizon) are compared on every transition. Unit tests pin a handful of these configurations.",
             "Trusted: the reference model (kdverif/models/interleaved_ref.py, written from the statement) and harness samplers; main samplers yield len(sampler) indices (stated domain). Sizes above the bound are not covered.",
             "DESIGN.md section 5 C04"),
+    "C05": ("E3-lockstep", "model_checking",
+            "explicit-state enumeration of the bounded configuration space; reference-model traces replayed in lock-step against the real generator, then against the batch-sampler/dataset/collator level",
+            "Every geometry/budget of C04 (N<=5 quick / <=8 thorough) plus the zero budgets, combined with every single config of a 1062-entry menu (all interval-kind mixtures, empty and short samplers, samplers shorter than their dataset, per-config batch sizes) and pairs/triples from a reduced menu: the full main+side event stream of the real generator is compared event by event with the reference model; on a sub-lattice batches are resolved through the real concat dataset and collator exactly as DataLoader(num_workers=0) does, and the real get_data_loader(0) is iterated.",
+            "Trusted: reference model and recording samplers/datasets/collators. Real worker processes (num_workers>=2) are not part of the deciding step.",
+            "DESIGN.md section 5 C05"),
+    "C06": ("E3-lockstep", "model_checking",
+            "explicit-state enumeration of configurations x epoch-boundary checkpoints; resumed real generator replayed against the suffix of the uninterrupted reference trace",
+            "For every geometry, budget and config set (N<=7 quick / <=10 thorough) and every epoch-boundary checkpoint strictly before the budget, given in each of the three forms, the resumed real generator must produce exactly the suffix of the uninterrupted reference trace (set_epoch numbers, indices, side passes, stopping point); explicit constructor rejections are counted, not failed.",
+            "Trusted: reference model; checkpoints off epoch boundaries are outside the stated domain.",
+            "DESIGN.md section 5 C06"),
 }
 
 NOT_APPLICABLE = {
